@@ -7,6 +7,8 @@ Six TLA+ modules, each explored by TLC and replayed on the real objects:
   NeighMemo      select() histories of a moving neighbourhood  -> vs freshly built neighbourhood
   CowVector      copy / modify histories of VectorT            -> vs value semantics computed by TLC
   ModelEdit      add / delete / filter structures of a Model   -> vs value semantics computed by TLC and a fresh Model
+  Redefine       objects defined again (grid, DbGrid, Vario,   -> vs a new object defined with the last definition
+                 CovAniso setters, ball-tree neighbourhood)
   Globals        (prefix, observed) call pairs                 -> two fresh processes, bit-identical
 TLC checks the property on the intended protocol / the algorithm against its definition, predicts
 the histories on which the transcription of the code would break it, and emits every history as a
@@ -124,11 +126,16 @@ def run(tier):
         if "crash" in o:
             ck.disagree({"module": "NeighMemo", "kind": "crash"}, o); continue
         sc = scripts[o["idx"]]
+        earlier = []
         for ob in o["obs"]:
             nsel += 1
             if not ob["equal"]:
-                ck.disagree({"module": "NeighMemo", "layout": sc.get("layout", "plain"), "after": [h["op"] for h in sc["hist"][:ob["step"] - 1]]},
+                # (is the answer the neighbourhood returned earlier in this history for another target?)
+                stale = any(e["t"] != ob["t"] and e["got"] == ob["got"] for e in earlier)
+                ck.disagree({"module": "NeighMemo", "layout": sc.get("layout", "plain"), "memo_of_previous_target": stale,
+                             "after": [h["op"] for h in sc["hist"][:ob["step"] - 1]]},
                             {"script": sc, "observation": ob})
+            earlier.append(ob)
     nscripts += len(scripts)
     if not any(sc.get("layout") == "sectors" for sc in scripts):
         raise Broken("NeighMemo: no history in the sectors layout")
@@ -167,6 +174,36 @@ def run(tier):
     ck.cov["modeledit_histories"] = len(scripts); ck.cov["modeledit_steps_compared"] = nme
     ck.sample({"module": "ModelEdit", "script": scripts[len(scripts) // 2]})
     log("[C10] ModelEdit: %d states, %d histories, %d steps compared" % (res.distinct, len(scripts), nme))
+
+    # ---------------------------------------------------------------- Redefine
+    c = cfg(ck, "rd.cfg", "SPECIFICATION Spec\nCONSTANTS\n  MaxLen = %d\nINVARIANT Fresh\nCONSTRAINT EmitScripts\nCHECK_DEADLOCK FALSE\n" % (4 if thorough else 3))
+    res = vlib.run_tlc("Redefine", c, workers=8, timeout=3000)
+    if res.violation:
+        raise Broken("Redefine: the model itself violates Fresh:\n" + res.violation)
+    states += res.distinct; trans += res.generated
+    scripts = res.emitted
+    obs = replay(ck, exe, "redefine", scripts, "rd")
+    nrd = 0
+    seen_cls = set()
+    for o in obs:
+        if "crash" in o:
+            ck.disagree({"module": "Redefine", "kind": "crash"}, o); continue
+        sc = scripts[o["idx"]]
+        seen_cls.add(sc["cls"])
+        for k, st in enumerate(sc["hist"]):
+            nrd += 1
+            ob = o["obs"][k]
+            if not ob["equal"]:
+                prev = [h["d"] for h in sc["hist"][:k] if h["op"] == "define"]
+                ck.disagree({"module": "Redefine", "class": sc["cls"], "op": st["op"], "definition": st["d"], "order": st["order"],
+                             "previous_definition": prev[-1] if prev else None},
+                            {"script": sc, "step": k, "observed": ob.get("got"), "fresh": ob.get("fresh")})
+    if seen_cls != {"grid", "dbgrid", "vario", "covaniso", "ballneigh"}:
+        raise Broken("Redefine: classes replayed: %s" % sorted(seen_cls))
+    nscripts += len(scripts)
+    ck.cov["redefine_histories"] = len(scripts); ck.cov["redefine_steps_compared"] = nrd
+    ck.sample({"module": "Redefine", "script": scripts[len(scripts) // 2]})
+    log("[C10] Redefine: %d states, %d histories, %d steps compared" % (res.distinct, len(scripts), nrd))
 
     # ---------------------------------------------------------------- CowVector
     c = cfg(ck, "cow.cfg", "SPECIFICATION Spec\nCONSTANTS\n  MaxLen = 2\n  MaxSize = 3\nINVARIANT Agree\nPROPERTY Isolation\n"
